@@ -118,7 +118,13 @@ def judge(units, acc=None):
         else:
           t = consts.get(f"r{k}_{i}")
           got = O.decode(t) if t is not None else "<name missing in the stub>"
-          mism = O.compare(names, cp["bound"], got)
+          if got == "Any":
+            # pytype gave up on the call result (Any admits every binding): not judged, counted
+            mism = []
+            if acc is not None:
+              _cnt(acc, "call result is Any: binding not judged")
+          else:
+            mism = O.compare(names, cp["bound"], got)
           if acc is not None:
             _cnt(acc, "bindings compared (parameters)", len(names))
           if mism:
